@@ -199,9 +199,9 @@ def _outcome_key(res):
     return res[0]
 
 
-def replay(scen, cfg, choices, names=None, budget=None):
+def replay(scen, cfg, choices, names=None, budget=None, timer_choice=False):
     """Re-execute one recorded choice sequence without the explorer."""
     choices = [tuple(c) for c in choices]
     b = sum(1 for c in choices if c[0] == "e" and c[1] is not None)
     return run_one(scen, cfg, choices, budget if budget is not None else b,
-                   hashing=False, names=names)
+                   hashing=False, names=names, timer_choice=timer_choice)
